@@ -1,7 +1,7 @@
 """Per-check metadata from which bin/mkmanifest writes MANIFEST.json."""
 
 HOOK_COMMITS = ["3c48510", "e2e1b97", "035de92", "8d2dfbb", "87c61cc", "5f32c19"]
-FIX_COMMITS = ["4036763", "5f5d3b9", "e0b60a8", "6cf1e6b", "6eae605", "8378524", "a71bd21", "3012537", "59d973f", "aa35bd8", "58124f2", "9fc07cf", "5316fe1"]
+FIX_COMMITS = ["4036763", "5f5d3b9", "e0b60a8", "6cf1e6b", "6eae605", "8378524", "a71bd21", "3012537", "59d973f", "aa35bd8", "58124f2", "9fc07cf", "5316fe1", "f24111c"]
 
 NOTES = ("One engine: TLA+ specifications under spec/, TLC for the design, Go harness (harness/) for conformance. "
          "Exit 2 (INFRA-ERROR) is never a verdict. known_findings.json lists recorded genuine defects.")
@@ -105,5 +105,16 @@ CHECKS = {
                 "scan batch) the gates park the rewrite between batches while TLC-generated commands are issued; each step of the swap is a crash "
                 "point; the dataset served at the end must equal what a fresh server recovers from the rewritten log and from each crash copy.",
         "note": "Kill = copy of the data directory at that instant. Known findings: concurrent RENAME and non-idempotent JSET append (rewrite algorithm).",
+    },
+    "C06": {
+        "level": "model_checking",
+        "technique": "TLA+ Follow spec (followCheckSome transcribed, with the historical deviations as constants) model-checked; every distinct scenario of the reachable graph (initial follower state x leader writes x fault sequence) executed on real leader/follower pairs through a cut-proxy; dataset equality at the caught-up hook and at quiescence",
+        "text": "TLC checks CopyWhenCaughtUp / NoEarlyCaughtUp / LogIsLeaderPrefix over all leader histories (incl. a non-idempotent command), initial "
+                "follower logs (leader prefix + foreign suffix) and fault sequences (connection drop, follower restart, leader AOFSHRINK), and refutes "
+                "the three deviations of the pre-fix followCheckSome. The distinct scenarios of the graph (quick: a seeded sample covering every "
+                "initial-state and fault kind; thorough: all ~940) run on two real servers with padded batches so that the real 512 KiB checksum "
+                "window spans 1.5 batches; at the instant before caught-up is reported (hook) and at every quiescent point the follower's dataset "
+                "(collections, objects, fields, hooks, channels) must equal the leader's.",
+        "note": "Monotone divergence assumed for initial follower logs. Leader kept quiescent between a (re)connect and the caught-up report. PUBLISH frames in the replication stream not exercised.",
     },
 }
